@@ -239,6 +239,7 @@ func init() {
 	V["Secret"] = func(c *Ctx, st *State, a []Value, site ssa.Instruction) Value {
 		// marks every input whose name starts with the prefix as secret (constant-time checks)
 		c.secret[a[0].(string)] = true
+		c.secretMemo = map[*Term]bool{}
 		return nil
 	}
 	V["Assume"] = func(c *Ctx, st *State, a []Value, site ssa.Instruction) Value {
@@ -324,7 +325,11 @@ func init() {
 				continue
 			}
 			old := st.load(p)
-			st.store(p, c.havocValue(old, "hv"))
+			nv := c.havocValue(old, "hv")
+			if cf != nil && cf.taint {
+				c.taintValue(nv)
+			}
+			st.store(p, nv)
 		}
 		return nil
 	}
